@@ -130,6 +130,14 @@ COST = {"c04_fit_kmeans_nclusters": 130, "c04_fit_kmeans_tolerance": 130, "c04_f
         "c04_gaussian_random_projection": 12, "c04_sparse_random_projection": 12, "c04_blanket_fit": 11, "c04_blanket_fit_with": 12, "c04_kmeans": 10, "c04_tsne": 10}
 
 
+# ---- kernels of other properties that are concretely typed (f32) and therefore Kani's, not Engine S's
+_h = H("platt::c03_platt_predict_range", "platt_predict<f32>", "for every finite decision value and finite A, B the result is a probability in [0,1] (Pr::new does not panic, no NaN)",
+       ["linfa::composing::platt_scaling::platt_predict", "linfa::dataset::Pr::new"], 2,
+       stubs=("f32::exp",), assumes=("f32::exp replaced by an arbitrary function with: result >= 0 and not NaN, <= 1 for arguments <= 0, >= 1 for arguments >= 0 (CBMC's own exp model produced a counterexample that does not replay)", "x, A, B finite"))
+_h["prop"] = "C03"
+HARNESSES.append(_h)
+
+
 def kenv():
     e = dict(os.environ)
     e["CARGO_NET_OFFLINE"] = "true"
@@ -285,7 +293,7 @@ def run_harness(h, widx, timeout, replay=True):
         return rec
     wit = {c["desc"].split(":")[0]: c["status"] for c in p["covers"] if c["desc"].startswith("WITNESS")}
     if p["verdict"] == "SUCCESSFUL":
-        if wit.get("WITNESS valid") == "SATISFIED" and wit.get("WITNESS invalid") == "SATISFIED":
+        if wit and len(wit) >= 2 and all(v == "SATISFIED" for v in wit.values()):
             rec["verdict"] = "verified"
         else:
             rec.update(verdict="undecided", detail="vacuity witness not satisfied: %s" % wit)
@@ -364,6 +372,8 @@ def _run(prop, tier, seed, only, jobs, suspects, quiet):
     known = load_known(prop)
     sel, skipped = [], []
     for h in HARNESSES:
+        if h.get("prop", "C04") != prop:
+            continue
         if tier not in h["tiers"] or (only and only not in h["name"]):
             continue
         if h["role"] == "unclaimed" and not suspects:
